@@ -233,6 +233,7 @@ Definition dkey_eqb (a b : dval) : bool :=
   | DF64 x, DF64 y => x =? y
   | DF32 x, DF32 y => x =? y
   | DTime s n, DTime s' n' => (s =? s') && (n =? n')
+  | DNil, DNil => true                              (* the nil interface key *)
   | DPtr r _, DPtr r' _ => Nat.eqb r r'
   | DStructV _ _, DStructV _ _ => false
   | _, _ => false
@@ -426,7 +427,6 @@ Section Step.
       | t :: r => if t =? g_endFlag then Ok (acc, r, st) else Unmodelled
       | [] => Unmodelled
       end
-    | Ok (DNil, r1, st1) => Ok (acc, r1, st1)                 (* a null key ends the map *)
     | Ok (k, r1, st1) =>
       do (y, st2) <- rd st1 r1 ;; let '(v, r2) := y in
       do k' <- (match kt with TIface => Ok k | _ => set_value te (dheap st2) kt k end) ;;
